@@ -14,8 +14,9 @@ from .c05 import sweep
 EXPLANATION = (
     "Static writer/reader agreement for the fragment layer. Decides: (R1) FragmentSender.build and parsePayload use the same "
     "prefix format, size and field order, the 1-based index matches the receiver's slot arithmetic, both slices of the split "
-    "loop use the same bound and the last branch takes the whole remainder, the join concatenates the slots in order, the count "
-    "field equals the number of fragments; (R2) every APP_FRAGMENT message queued anywhere in the package carries the packed "
+    "loop tile the payload exactly (decided on an offset abstraction of the split phase: byte strings as [start, end) offsets, exact "
+    "for length comparisons and constant slices, evaluated at every boundary length for the probed MTUs), the join concatenates the "
+    "slots in order, the count field equals the number of fragments; (R2) every APP_FRAGMENT message queued anywhere in the package carries the packed "
     "prefix; (R3) for every MTU the fragmentation threshold is exactly the single-datagram limit, the oversize ValueError "
     "dominates the first yield and nothing is queued before the refusal, the fragment count fits its field; (R4) fragments are "
     "non-empty (the completeness test uses truthiness); (R5) delivery into incoming_messages happens only in _recvApp, reached "
